@@ -2,6 +2,7 @@ import BoltonsVerif.C02.Extra
 import BoltonsVerif.C02.HRefine
 import BoltonsVerif.C02.ReentFacts
 import BoltonsVerif.C02.LLFrame
+import BoltonsVerif.C02.LLFrameCalls
 /-
 C02 — property theorems for the LRI / LRU model (statements, short derivations from
 `Proofs` / `Refine` / `Facts`, non-vacuity examples).
@@ -614,9 +615,9 @@ theorem ll_ops_write_only_own_links {l : LL K V} {cells : Cells K V} (h : Rep l 
     Touches l (l.evictLast k v).1 (footprint l cells) ∧
     (∀ l', l.remove k = some l' → Touches l l' (footprint l cells)) ∧
     Touches l l.reinit (footprint l cells) := by
-  refine ⟨fun l' n hm => ?_, h.touches_addFront k v, h.touches_evictLast k v, fun l' hm => h.touches_remove hm,
+  refine ⟨fun l' n hm => ?_, h.touches_addFront k v, h.touches_evictLast k v, fun l' hm => (h.touches_remove hm).1,
     Rep.touches_reinit l _⟩
-  obtain ⟨t, hn⟩ := h.touches_moveToFront hm
+  obtain ⟨t, hn, _⟩ := h.touches_moveToFront hm
   exact ⟨t, t.trans (Rep.touches_setVal l' hn (some v)) (fun a ha => Or.inl ha)⟩
 
 /-- SEPARATION: two well-formed lists that occupy disjoint links of one memory (a cache and its copy in the
@@ -631,6 +632,38 @@ theorem ll_disjoint_lists_independent {l1 l1' l2 : LL K V} {c1 c2 : Cells K V} (
   have hr := h2.separate hmem hdis ht
   exact ⟨hr, hr.flatten⟩
 
+/-- WHOLE public method calls on the pointer-level cache — any history of them, with a re-entrant on_miss of any
+    kind and depth: relative to the list before the history (links `footprint h.ll cells`) only links the list owned
+    then or allocated since are written (`Track.touches`), and its anchor and link table point only to such links -/
+theorem linked_list_calls_write_only_own_links {h : HCache K V} {c : Cache K V} (hs : HSim h c) {cells : Cells K V}
+    (hrep : Rep h.ll cells) (P : List K → K → OmProg K V) (fuel : Nat) (ops : List (Op K V)) :
+    Track h.ll (footprint h.ll cells) (HCache.mach.rrun P fuel h ops).ll ∧
+    ∃ c', HSim (HCache.mach.rrun P fuel h ops) c' := by
+  obtain ⟨c', hr, t⟩ := (HCache.machTrack h.ll (footprint h.ll cells)).rrun P fuel (n := 0)
+    (⟨c, RHSim.zero_iff.2 hs, Track.start hrep⟩ : QT h.ll (footprint h.ll cells) 0 h) ops
+  exact ⟨t, c', hr.1⟩
+
+/-- … hence a cache whose list lives in the same memory on disjoint links (its copy in the CPython heap) is not
+    disturbed by ANY history of calls on this cache: its list stays well formed with the same cells (keys, values,
+    eviction order), and the two lists stay disjoint -/
+theorem linked_list_calls_do_not_disturb_other_lists {h : HCache K V} {c : Cache K V} (hs : HSim h c)
+    {cells c2 : Cells K V} (hrep : Rep h.ll cells) {l2 : LL K V} (h2 : Rep l2 c2)
+    (hmem : l2.prev = h.ll.prev ∧ l2.next = h.ll.next ∧ l2.key = h.ll.key ∧ l2.val = h.ll.val ∧ l2.fresh = h.ll.fresh)
+    (hdis : ∀ a ∈ footprint l2 c2, a ∉ footprint h.ll cells)
+    (P : List K → K → OmProg K V) (fuel : Nat) (ops : List (Op K V)) :
+    Rep { l2 with prev := (HCache.mach.rrun P fuel h ops).ll.prev, next := (HCache.mach.rrun P fuel h ops).ll.next,
+                  key := (HCache.mach.rrun P fuel h ops).ll.key, val := (HCache.mach.rrun P fuel h ops).ll.val,
+                  fresh := (HCache.mach.rrun P fuel h ops).ll.fresh } c2 ∧
+    ∀ cells', Rep (HCache.mach.rrun P fuel h ops).ll cells' →
+      ∀ a ∈ footprint (HCache.mach.rrun P fuel h ops).ll cells', a ∉ footprint l2 c2 := by
+  obtain ⟨t, _⟩ := linked_list_calls_write_only_own_links hs hrep P fuel ops
+  refine ⟨h2.separate hmem hdis t.touches, fun cells' hr' a ha ha2 => ?_⟩
+  rcases t.owns hr' a ha with h1 | h1
+  · exact hdis a ha2 h1
+  · have := h2.bound a ha2
+    rw [hmem.2.2.2.2] at this
+    omega
+
 /-- the hypotheses are satisfiable: a list with one link (anchor 0, link 1) and a second, empty list whose
     anchor (link 2) was allocated after it in the same memory; a link is added to the second list -/
 example : ∃ (l1 l2 : LL Nat Nat) (c1 c2 : Cells Nat Nat), Rep l1 c1 ∧ Rep l2 c2 ∧
@@ -641,6 +674,25 @@ example : ∃ (l1 l2 : LL Nat Nat) (c1 c2 : Cells Nat Nat), Rep l1 c1 ∧ Rep l2
   refine ⟨{ ((LL.new : LL Nat Nat).addFront 1 5).reinit with anchor := 0, table := [(1, 1)] },
     ((LL.new : LL Nat Nat).addFront 1 5).reinit, [(1, (1, 5))], [], ?_, hb, ⟨rfl, rfl, rfl, rfl, rfl⟩, ?_, rfl,
     hb.touches_addFront 7 8⟩
+  · refine ha.frame rfl rfl (by decide) (fun a ha' => ?_)
+    simp only [footprint, addrsOf, List.map_cons, List.map_nil, List.mem_cons, List.not_mem_nil, or_false] at ha'
+    rcases ha' with rfl | rfl <;> decide
+  · intro a ha'
+    simp only [footprint, addrsOf, List.map_cons, List.map_nil, List.mem_cons, List.not_mem_nil, or_false] at ha'
+    rcases ha' with rfl | rfl <;> decide
+
+/-- the hypotheses of `linked_list_calls_do_not_disturb_other_lists` are satisfiable: an empty cache whose anchor
+    (link 2) lies in a memory that already holds another list (anchor 0, link 1 with key 1) -/
+example : ∃ (h : HCache Nat Nat) (c : Cache Nat Nat) (cells c2 : Cells Nat Nat) (l2 : LL Nat Nat),
+    HSim h c ∧ Rep h.ll cells ∧ Rep l2 c2 ∧
+    (l2.prev = h.ll.prev ∧ l2.next = h.ll.next ∧ l2.key = h.ll.key ∧ l2.val = h.ll.val ∧ l2.fresh = h.ll.fresh) ∧
+    (∀ a ∈ footprint l2 c2, a ∉ footprint h.ll cells) ∧ c2 = [(1, (1, 5))] := by
+  have ha : Rep ((LL.new : LL Nat Nat).addFront 1 5) [(1, (1, 5))] := Rep.new.addFront 5 rfl
+  have hb : Rep ((LL.new : LL Nat Nat).addFront 1 5).reinit [] := Rep.reinit _
+  refine ⟨⟨false, 2, none, [], ((LL.new : LL Nat Nat).addFront 1 5).reinit, 0, 0, 0, []⟩, Cache.initP false 2 none, [],
+    [(1, (1, 5))], { ((LL.new : LL Nat Nat).addFront 1 5).reinit with anchor := 0, table := [(1, 1)] },
+    ⟨rfl, rfl, rfl, rfl, rfl, rfl, rfl, rfl, Inv.initP false 2 none (by decide), [], hb, rfl⟩, hb, ?_,
+    ⟨rfl, rfl, rfl, rfl, rfl⟩, ?_, rfl⟩
   · refine ha.frame rfl rfl (by decide) (fun a ha' => ?_)
     simp only [footprint, addrsOf, List.map_cons, List.map_nil, List.mem_cons, List.not_mem_nil, or_false] at ha'
     rcases ha' with rfl | rfl <;> decide
